@@ -141,6 +141,132 @@ def job_ctor_domain(reps):
     return held(summary=f"constructor domain reps={reps}: {eng.paths} paths {eng.outcomes}", sample=dict(reps=reps, outcomes=eng.outcomes), **common)
 
 
+def item_step_block():
+    import ast
+    import moptipyapps.binpacking2d.encodings.ibl_encoding_1 as e1
+    return xform.extract_block(e1._decode, lambda fd: [st for st in xform.body_wo_doc(fd) if isinstance(st, ast.For)][0].body, name="item_step")
+
+
+def job_item_step(K, with_reference=False, timeout_s=1800):
+    """Inductive step of encoding 1: the body of the item loop, started from an ARBITRARY feasible current bin holding K boxes
+    (any sizes, any positions) with arbitrary garbage in the new row: afterwards the new row is a feasible placement of the
+    item in the current bin, or the first box of a new bin; bookkeeping (bin_id, bin_start) stays consistent.  With
+    with_reference (C14) the position must be the one the documented rule prescribes for that bin."""
+    from . import ibl_reference as R
+    step = item_step_block()
+    ref_place = xform.transform(R.ref_place, core.install_builtins(), {}, also=("ref_descent", "ref_left")) if with_reference else None
+
+    def h(eng):
+        W, H = fresh_int("W"), fresh_int("H")
+        inst = fresh_array("inst", (1, 3))
+        w0, h0 = inst[0, 0], inst[0, 1]
+        mx = z3.If(W.e >= H.e, W.e, H.e)
+        mn = z3.If(W.e >= H.e, H.e, W.e)
+        eng.assume(z3.And(W.e >= 1, H.e >= 1, W.e <= P.MAXDIM, H.e <= P.MAXDIM, w0.e >= 1, h0.e >= 1, w0.e <= mx, h0.e <= mx,
+                          z3.Not(z3.And(w0.e > mn, h0.e > mn))))
+        y = fresh_array("y", (K + 1, 6))
+        bin_id = fresh_int("bin_id")
+        X = P.rows_of(y, K + 1)
+        cs = [bin_id.e >= 1]
+        for i in range(K):
+            _, b, l, bt, r, t = X[i]
+            cs += [b == bin_id.e, l >= 0, bt >= 0, r <= W.e, t <= H.e, l < r, bt < t]
+            for j in range(i):
+                _, b2, l2, bt2, r2, t2 = X[j]
+                cs.append(z3.Or(r <= l2, r2 <= l, t <= bt2, t2 <= bt))
+        eng.assume(z3.And(*cs))
+        item_id = fresh_int("item")
+        eng.assume(z3.Or(item_id.e == 1, item_id.e == -1))
+        pre_rows = [[mk(v) for v in X[i]] for i in range(K)]
+        out = xform.call_block(step, bin_height=H, bin_width=W, bin_id=bin_id, bin_start=0, i=K, instance=inst, item_id=item_id, y=y,
+                               h=0, w=0, use_id=0, x=None)
+        eng.pending = [(l_, c) for l_, c in eng.pending if l_.startswith("index in range")]
+        eng.flush()
+        idd, b, l, bt, r, t = [lift(y[K, k]) for k in range(6)]
+        nb, nbs = lift(out["bin_id"]), lift(out["bin_start"])
+        same = z3.And(b == bin_id.e, nb == bin_id.e, nbs == 0)
+        newb = z3.And(b == bin_id.e + 1, nb == bin_id.e + 1, nbs == K, l == 0, bt == 0)
+        post = [idd == 1, l >= 0, bt >= 0, r <= W.e, t <= H.e,
+                z3.Or(z3.And(r - l == w0.e, t - bt == h0.e), z3.And(r - l == h0.e, t - bt == w0.e)), z3.Or(same, newb)]
+        for j in range(K):
+            _, b2, l2, bt2, r2, t2 = [lift(v) for v in pre_rows[j]]
+            post.append(z3.Or(b != b2, r <= l2, r2 <= l, t <= bt2, t2 <= bt))
+            post.append(z3.And(*[lift(y[j, k]) == lift(pre_rows[j][k]) for k in range(6)]))       # earlier rows untouched
+        eng.oblige(z3.And(*post), "item step keeps the packing feasible and the bookkeeping consistent", now=True)
+        if with_reference:
+            wq = z3.If(item_id.e < 0, h0.e, w0.e)
+            hq = z3.If(item_id.e < 0, w0.e, h0.e)
+            swap = z3.Or(wq > W.e, hq > H.e)
+            wf, hf = mk(z3.If(swap, hq, wq)), mk(z3.If(swap, wq, hq))
+            boxes = [tuple(pre_rows[j]) for j in range(K)]
+            rl, rb, rr, rt = ref_place(boxes, wf, hf, W, H, 4 * K + 6)
+            inside = z3.And(lift(rr) <= W.e, lift(rt) <= H.e)
+            exp = z3.If(inside, z3.And(b == bin_id.e, l == lift(rl), bt == lift(rb), r == lift(rr), t == lift(rt)),
+                        z3.And(b == bin_id.e + 1, l == 0, bt == 0, r == lift(wf), t == lift(hf)))
+            eng.oblige(exp, "item lands where the documented bottom-left rule puts it", now=True)
+        return "stepped"
+    eng = Engine(timeout_ms=120000, deadline=time.time() + timeout_s)
+    eng.prefer = [z3.And(z3.Int("W") <= 40, z3.Int("H") <= 40), z3.And(z3.Int("W") <= 2000, z3.Int("H") <= 60)]
+    ok = eng.explore(h)
+    common = dict(paths=eng.paths, queries=dict(sat=eng.n_sat, unsat=eng.n_unsat, unknown=eng.unknown), solver_s=round(eng.t_solver, 2), vacuity=dict(outcomes=eng.outcomes))
+    if eng.violations:
+        v = eng.violations[0]
+        md = {d.name(): v.model[d].as_long() for d in v.model.decls() if z3.is_int_value(v.model[d])}
+        # turn the pre-state into an instance + permutation: one item type per pre-placed box is not enough to force positions,
+        # so the witness is replayed at kernel level: call the real compiled _decode? it cannot start mid-run.  Use the whole
+        # decoders on small instances found by a bounded concrete search around the model's sizes.
+        wit = _search_decode_witness(md, with_reference)
+        if wit is not None:
+            clause = "follows_documented_rule" if with_reference and wit.get("kind") == "reference" else "feasible_packing"
+            return violated(clause, "binpacking2d/encodings/ibl_encoding_1.py", f"item step ({v.label}) -> whole-decoder witness {wit}", wit, validated=1, **common)
+        return inconclusive(f"item-step counterexample ({v.label}) starts from an intermediate state; no whole-decoder witness found by the bounded search: "
+                            f"{ {k: md[k] for k in sorted(md) if not k.startswith('y_') or int(k[2:]) < 6 * K} }", **common)
+    if not ok or not eng.outcomes.get("stepped"):
+        return inconclusive(f"not conclusive {eng.stats()}", **common)
+    return held(summary=f"encoding 1 item step from an arbitrary feasible bin with K={K} boxes{' vs reference rule' if with_reference else ''}: {eng.paths} paths",
+                sample=dict(K=K, sizes="symbolic to 10^12", with_reference=with_reference), **common)
+
+
+def _search_decode_witness(md, with_reference):
+    """bounded concrete search for a whole-decoder input exhibiting a step counterexample: small instances with the bin and item
+    sizes of the model (and small variations), all signed permutations; checked for feasibility (and against the reference)"""
+    import itertools
+    from . import ibl_reference as R
+    W, H = md.get("W", 5), md.get("H", 5)
+    if W > 60 or H > 60:
+        return None
+    sizes = set()
+    K = 0
+    while f"y_{K * 6}" in md:
+        l, bt, r, t = md.get(f"y_{K * 6 + 2}", 0), md.get(f"y_{K * 6 + 3}", 0), md.get(f"y_{K * 6 + 4}", 0), md.get(f"y_{K * 6 + 5}", 0)
+        if 0 < r - l <= max(W, H) and 0 < t - bt <= max(W, H):
+            sizes.add((r - l, t - bt))
+        K += 1
+    sizes.add((md.get("inst_0", 1), md.get("inst_1", 1)))
+    sizes = [s for s in sizes if not (s[0] > min(W, H) and s[1] > min(W, H)) and s[0] <= max(W, H) and s[1] <= max(W, H)][:4]
+    tried = 0
+    for k in range(1, min(5, K + 2)):
+        for combo in itertools.combinations_with_replacement(sizes, k):
+            items = [(w, h, 1) for (w, h) in combo]
+            for x in P.signed_perms([1] * k):
+                tried += 1
+                if tried > 3000:
+                    return None
+                wq = dict(enc=1, W=W, H=H, items=[list(i) for i in items], x=list(x))
+                bad, info = replay(wq)
+                if bad:
+                    wq["observed"] = info
+                    wq["kind"] = "feasibility"
+                    return wq
+                if with_reference and info.get("rows") is not None:
+                    exp, nb = R.ref_decode_1(list(x), [(w, h) for (w, h, _) in items], W, H, 10 * k + 10)
+                    if [list(r) for r in exp] != info["rows"] or nb != info["n_bins"]:
+                        wq["observed"] = dict(decoded=info["rows"], expected=[list(r) for r in exp])
+                        wq["kind"] = "reference"
+                        return wq
+    return None
+
+
 def job_selftest(seed):
     """translator validation: transformed source on concrete values vs compiled encoders"""
     E = encoders()
@@ -206,6 +332,8 @@ def jobs(tier):
     import os
     seed = int(os.environ.get("VERIF_SEED", "0") or 0)
     js = [Job("selftest", job_selftest, dict(seed=seed), "selftest", 180)]
+    for K in (1, 2, 3) + ((4, 5) if tier == "thorough" else ()):
+        js.append(Job(f"item-step/enc1/K{K}", job_item_step, dict(K=K, timeout_s=1500 if tier == "quick" else 3300), "feasible_packing", 1700 if tier == "quick" else 3500, weight=K))
     nmax = 3 if tier == "quick" else 4
     for n in range(1, 4):
         for reps in P.compositions(n):
@@ -232,6 +360,8 @@ def meta(tier):
     return dict(
         bounds=dict(items=f"<= {3 if tier == 'quick' else 4} items (every multiplicity vector, every signed permutation with repetition, enumerated)",
                     sizes="bin and item sizes fully symbolic in 1..10^12 (every storage class int8..int64 and its edges inside one query family)",
+                    item_step="encoding 1: the extracted body of the item loop from an arbitrary feasible current bin with K <= 3 (thorough 5) boxes of arbitrary sizes: covers runs of any "
+                              "length in which no bin receives more than K+1 items (loop induction)",
                     encodings=[1, 2], prior_state="destination packing, bin_starts, bin_ends start as arbitrary values of their dtype"),
         outside=["more items than the bound", "lower_bound part of the constructor (C03)"],
         assumptions=["quick tier only: item rows of the symbolic instance are interchangeable, so permutations are enumerated up to relabelling of ids with equal multiplicity (thorough enumerates all)",
